@@ -1,0 +1,49 @@
+//go:build verif
+
+package edwards25519
+
+// Hooks for the /verif correspondence harness (property C17). Compiled only
+// with the build tag `verif`; they expose internals, they change no behaviour.
+
+import (
+	"hash"
+
+	"go.dedis.ch/kyber/v4/compatible"
+)
+
+// VerifExpandMessageXMD exposes expandMessageXMD (RFC 9380, section 5.3.1).
+func VerifExpandMessageXMD(h hash.Hash, m []byte, dst string, byteLen uint64) ([]byte, error) {
+	return expandMessageXMD(h, m, dst, byteLen)
+}
+
+// VerifHashToField exposes hashToField: the field elements as big-endian
+// canonical byte strings.
+func VerifHashToField(m []byte, dst string, count uint64) [][]byte {
+	us := hashToField(m, dst, count)
+	out := make([][]byte, len(us))
+	for i := range us {
+		b := compatible.NewInt(0)
+		feToBn(b, &us[i])
+		out[i] = b.ToBigInt().Bytes()
+	}
+	return out
+}
+
+// Hooks for property C02: the 21-bit limb arithmetic on 32-byte little-endian
+// scalars, which the Scalar API reaches only partly (scMulAdd and scReduce are
+// not called by it).
+
+// VerifScMulAdd exposes scMulAdd: s = (a*b + c) mod l.
+func VerifScMulAdd(s, a, b, c *[32]byte) { scMulAdd(s, a, b, c) }
+
+// VerifScAdd exposes scAdd: s = (a + c) mod l.
+func VerifScAdd(s, a, c *[32]byte) { scAdd(s, a, c) }
+
+// VerifScSub exposes scSub: s = (a - c) mod l.
+func VerifScSub(s, a, c *[32]byte) { scSub(s, a, c) }
+
+// VerifScMul exposes scMul: s = (a * b) mod l.
+func VerifScMul(s, a, b *[32]byte) { scMul(s, a, b) }
+
+// VerifScReduce exposes scReduce: out = s mod l for a 64-byte s.
+func VerifScReduce(out *[32]byte, s *[64]byte) { scReduce(out, s) }
